@@ -74,6 +74,19 @@ def run(repo, rep, tier):
                     elif it in (f"fields({src_param})", f"dataclasses.fields({src_param})") and U(a) == f"{lv}.name":
                         ok = True
     rep.ob("C02.R1", cf, "_copy_flags copies every storage flag field to the cell", ok, "" if ok else "not every decoded attribute reaches the cell", key="C02.R1@copy_flags")
+    conds = []
+    for c in [c for c in body_walk(cf) if isinstance(c, ast.Call) and call_name(c) == "setattr"]:
+        p_ = c
+        while getattr(p_, "_parent", None) is not None and p_ is not cf:
+            prev_, p_ = p_, p_._parent
+            if isinstance(p_, ast.If):
+                t_ = U(p_.test).replace(" ", "")
+                if not t_.endswith("isnotNone"):
+                    conds.append(U(p_.test))
+            if isinstance(p_, (ast.ListComp, ast.GeneratorExp)):
+                conds += [U(i) for g_ in p_.generators for i in g_.ifs if not U(i).replace(" ", "").endswith("isnotNone")]
+    rep.ob("C02.R1", cf, "_copy_flags copies a decoded value whatever it is (an id of 0 is a value, not an absent field)", not conds,
+           "" if not conds else f"the copy is conditional on `{conds[0]}`: a stored id of 0 reads back as absent and the field is dropped on re-save", key="C02.R1@copy_flags:unconditional")
     fl = repo.func("cell.py", "CellStorageFlags.flags")
     ok = "[x.name for x in fields(self)]" in U(fl) or not via_flags
     rep.ob("C02.R1", fl, "flags() enumerates all dataclass fields", ok, "", key="C02.R1@flags-enum")
@@ -188,6 +201,7 @@ def run(repo, rep, tier):
 
 
 VARIANTS = [
+    M("copy-flags-truthy-only", "cell.py", "            setattr(self, flag, getattr(storage_flags, flag))\n", "            if getattr(storage_flags, flag):\n                setattr(self, flag, getattr(storage_flags, flag))\n", "C02.R1"),
     M("encoder-drops-suggest", "cell.py", "        if self._suggest_id is not None:\n            flags |= 0x1000\n            length += 4\n            storage += pack(\"<i\", self._suggest_id)\n", "", "C02.R1"),
     M("flags-field-removed", "cell.py", "    _control_id: int = None\n", "", "C02.R1"),
     M("init-after-tiles", "model.py", "        self.init_table_strings(table_id)\n        self.recalculate_row_headers(table_id, data)", "        self.recalculate_row_headers(table_id, data)",
